@@ -59,6 +59,9 @@ def run(ctx):
                 h = json.loads(raw)
                 pp = {"l": h["p"]["L"], "l2": h["p"]["L2"], "cs": h["p"]["CS"], "ss": h["p"]["SS"], "cmms": h["p"]["CMMS"], "smms": h["p"]["SMMS"]}
                 jobs.append({"mode": "layer", "p": pp, "acts": h["acts"]})
+                if budget and any(a["a"] == "dup" for a in h["acts"]):
+                    # the same schedule with every duplicate handed to the layer at the same time as the original
+                    jobs.append({"mode": "layerc", "p": pp, "acts": h["acts"]})
                 if pp["cs"] < 7 and pp["ss"] < 7:            # BERT is for stream transports only
                     acts = list(h["acts"])
                     if budget:
@@ -67,6 +70,20 @@ def run(ctx):
                 if budget == 0:
                     jobs.append({"mode": "tcp", "p": pp, "acts": []})
                     nscen += 1
+                    # directed: the fault-free schedule with the n-th message towards the server (n = 1, 2) duplicated
+                    # and both copies handed to the layer at the same time; extra deliveries drain what that adds
+                    for nth in (1, 2):
+                        acts, seen_c2s = [], 0
+                        for a in h["acts"]:
+                            if a["a"] == "deliver" and a["d"] == "c2s":
+                                seen_c2s += 1
+                                if seen_c2s == nth:
+                                    acts.append({"a": "dup", "d": "c2s", "k": 0})
+                                    continue
+                            acts.append(a)
+                        if seen_c2s >= nth and seen_c2s >= 2:
+                            acts += [{"a": "deliver", "d": d, "k": 0} for _ in range(4) for d in ("s2c", "c2s")]
+                            jobs.append({"mode": "layerc", "p": pp, "acts": acts})
     # (c) directed schedules: a fault-free exchange of every scenario in which the server's buffers time out once after
     #     1 / 2 delivered responses (a GET continuation then executes the application again: new representation)
     ndir = 0
@@ -102,7 +119,7 @@ def run(ctx):
     ctx.add("transitions", gen)
     ctx.add("traces_validated_against_impl", len(traces))
     ctx.cov["scenarios"] = nscen
-    ctx.cov["schedules_by_mode"] = {m: sum(1 for j in jobs if j["mode"] == m) for m in ("layer", "udp", "tcp")}
+    ctx.cov["schedules_by_mode"] = {m: sum(1 for j in jobs if j["mode"] == m) for m in ("layer", "layerc", "udp", "tcp")}
     ctx.cov["messages_relayed"] = sum(len(t["msgs"]) for t in traces)
     ctx.cov["completed_exchanges"] = sum(1 for t in traces if t["ret"] == "ok" and t["retcode"] in (68, 69))
     ctx.cov["exchanges_ending_in_error_or_timeout"] = sum(1 for t in traces if not (t["ret"] == "ok" and t["retcode"] in (68, 69)))
@@ -115,7 +132,7 @@ def run(ctx):
             continue
         groups = {}
         for t in ts:
-            mode = t["op"] if t["op"] == "layer" else t["transport"]
+            mode = ("layer" + ("-concurrent-dup" if t.get("concurrent") else "")) if t["op"] == "layer" else t["transport"]
             direction = "both" if t["p"]["l"] > 0 and t["p"]["l2"] > 16 else ("up" if t["p"]["l"] > 0 else "down")
             groups.setdefault((mode, direction, t["faulty"]), []).append(t)
         for (mode, direction, faulty), xs in sorted(groups.items(), key=str):
